@@ -226,7 +226,9 @@ def main(prop, title, rules, level, explanation, assumptions, trusted_base=None,
             samples.append(i.to_json())
             seen_rules.add(i.rule)
     coverage = {
-        "explanation": explanation,
+        "explanation": explanation + (
+            " Instances keyed `uses-<ID>.<rule>` re-decide, inside this check, the clauses of property <ID> that this property rests on (%s): a change that breaks this property through that code is reported here as well."
+            % ", ".join(sorted({n.split(".")[0][5:] for n, _f in rules if n.startswith("uses-")})) if any(n.startswith("uses-") for n, _f in rules) else ""),
         "evaluations": len(all_insts),
         "distinct_nontrivial": len(nontrivial_keys),
         "rule": "one evaluation = one rule instance (a call site, store, table row, constant or path obligation extracted from /repo's MIR) checked in one build configuration; distinct = distinct instance keys; non-trivial = the instance carries an obligation that can fail (anchors-present and floor instances are counted, notes are not)",
